@@ -297,6 +297,130 @@ impl Group for ReplaceSeq {
     }
 }
 
+/// C18, "these helpers carry every file read": `kvarn::read::file` on real files — regular files around every growth
+/// threshold, and files whose metadata says less than reading them delivers (a FIFO fed in pieces, procfs entries).
+pub struct FileRead {
+    rt: tokio::runtime::Runtime,
+}
+impl FileRead {
+    pub fn new() -> Self {
+        FileRead { rt: tokio::runtime::Builder::new_multi_thread().worker_threads(2).enable_all().build().unwrap() }
+    }
+}
+impl Group for FileRead {
+    fn name(&self) -> &'static str {
+        "c18.file"
+    }
+    fn rule(&self) -> &'static str {
+        "kvarn::read::file (no cache, and with a FileCache: read twice) on regular files of 0-70 000 bytes around the buffer thresholds (31-33, 1023-1025, 4064-4097, 8192±1), on a FIFO into which a thread writes 1-60 000 bytes in up to 300 pieces of 1-5000 bytes or more with pauses (its size is 0), and on /proc/version and /proc/self/cmdline (size 0, content not empty); oracle only: the bytes returned are exactly the bytes of the file (std::fs::read, or what was written into the FIFO); non-trivial = the file is not a regular file, or larger than 4096 bytes"
+    }
+    fn parallel(&self) -> bool {
+        false
+    }
+    fn compare_with_model(&self, _l: &str) -> bool {
+        false
+    }
+    fn generate(&self, ctx: &Ctx, rng: &mut Rng) -> Vec<String> {
+        let mut v = Vec::new();
+        for len in [0usize, 1, 31, 32, 33, 1023, 1024, 1025, 4064, 4065, 4095, 4096, 4097, 8191, 8192, 8193, 70_000] {
+            v.push(format!("c18.file reg {len} 0 0"));
+            v.push(format!("c18.file reg {len} 0 1"));
+        }
+        v.push("c18.file proc 0 0 0".to_owned());
+        v.push("c18.file proc 1 0 0".to_owned());
+        let n = if ctx.mode == Mode::Quick { 12 } else { 200 };
+        for _ in 0..n {
+            v.push(format!("c18.file fifo {} {} {}", *rng.pick(&[1usize, 10, 100, 4096, 5000, 10_000, 60_000]), *rng.pick(&[1usize, 7, 100, 1024, 4096, 5000]), rng.below(2)));
+        }
+        for _ in 0..n {
+            v.push(format!("c18.file reg {} 0 {}", rng.below(20_000), rng.below(2)));
+        }
+        v
+    }
+    fn run_impl(&self, ctx: &Ctx, line: &str) -> String {
+        let p: Vec<&str> = line.split(' ').collect();
+        let (a, b, cached): (usize, usize, bool) = (p[2].parse().unwrap(), p[3].parse().unwrap(), p[4] == "1");
+        let dir = ctx.work.join("files");
+        std::fs::create_dir_all(&dir).unwrap();
+        static N: std::sync::atomic::AtomicUsize = std::sync::atomic::AtomicUsize::new(0);
+        let id = N.fetch_add(1, std::sync::atomic::Ordering::SeqCst);
+        let cache: Option<kvarn::comprash::FileCache> = if cached { Some(Default::default()) } else { None };
+        let read = |path: &str| -> Option<Vec<u8>> {
+            let path = path.to_owned();
+            let c = cache.as_ref();
+            self.rt.block_on(async move { tokio::time::timeout(std::time::Duration::from_secs(10), kvarn::read::file(&path, c)).await.ok().flatten().map(|b| b.to_vec()) })
+        };
+        let (expect, got): (Vec<u8>, Option<Vec<u8>>) = match p[1] {
+            "reg" => {
+                let path = dir.join(format!("reg-{id}.bin"));
+                let content = gen_bytes(a, (id % 200) as usize);
+                std::fs::write(&path, &content).unwrap();
+                let g = read(path.to_str().unwrap());
+                let g2 = if cached { read(path.to_str().unwrap()) } else { g.clone() };
+                let _ = std::fs::remove_file(&path);
+                if g != g2 { return format!("second read (from the file cache) differs: {:?} vs {:?} bytes", g.map(|x| x.len()), g2.map(|x| x.len())); }
+                (content, g)
+            }
+            "proc" => {
+                let path = if a == 0 { "/proc/version" } else { "/proc/self/cmdline" };
+                let Ok(content) = std::fs::read(path) else { return "inconclusive: no procfs".into() };
+                (content, read(path))
+            }
+            _ => {
+                // a FIFO: the writer delivers `a` bytes in pieces of `b` bytes, with short pauses
+                let path = dir.join(format!("fifo-{id}"));
+                let _ = std::fs::remove_file(&path);
+                let st = std::process::Command::new("mkfifo").arg(&path).status();
+                if !st.map_or(false, |s| s.success()) { return "inconclusive: mkfifo".into(); }
+                let content = gen_bytes(a, (id % 200) as usize);
+                // (at most 300 pieces, so that the pauses stay far below the read's time limit)
+                let (c2, p2, piece) = (content.clone(), path.clone(), b.max(1).max(a / 300));
+                let writer = std::thread::spawn(move || {
+                    use std::io::Write;
+                    let Ok(mut f) = std::fs::OpenOptions::new().write(true).open(&p2) else { return };
+                    for (i, ch) in c2.chunks(piece).enumerate() {
+                        if f.write_all(ch).is_err() { return; }
+                        if i % 3 == 0 { std::thread::sleep(std::time::Duration::from_micros(300)); }
+                    }
+                });
+                let g = read(path.to_str().unwrap());
+                if g.is_none() {
+                    // unblock a writer that is still waiting for a reader
+                    let _ = std::fs::OpenOptions::new().read(true).custom_flags_nonblock().open(&path);
+                }
+                let _ = writer.join();
+                let _ = std::fs::remove_file(&path);
+                (content, g)
+            }
+        };
+        match got {
+            None => "none".into(),
+            Some(g) if g == expect => format!("ok {}", g.len()),
+            Some(g) => format!("WRONG read {} bytes, the file delivers {} (common prefix {})", g.len(), expect.len(), g.iter().zip(expect.iter()).take_while(|(x, y)| x == y).count()),
+        }
+    }
+    fn oracle(&self, _ctx: &Ctx, line: &str, out: &str) -> Option<(String, String)> {
+        if out.starts_with("ok ") || out.starts_with("inconclusive") { None } else { Some((format!("file:{line}"), format!("kvarn::read::file: {out}"))) }
+    }
+    fn nontrivial(&self, line: &str, _o: &str) -> bool {
+        let p: Vec<&str> = line.split(' ').collect();
+        p[1] != "reg" || p[2].parse::<usize>().unwrap_or(0) > 4096
+    }
+    fn classify(&self, l: &str, o: &str) -> String {
+        format!("{} {}", l.split(' ').nth(1).unwrap_or(""), o.split(' ').next().unwrap_or(""))
+    }
+}
+
+trait NonBlockOpen {
+    fn custom_flags_nonblock(&mut self) -> &mut Self;
+}
+impl NonBlockOpen for std::fs::OpenOptions {
+    fn custom_flags_nonblock(&mut self) -> &mut Self {
+        use std::os::unix::fs::OpenOptionsExt;
+        self.custom_flags(0o4000) // O_NONBLOCK
+    }
+}
+
 /// An `AsyncRead` that hands out the stream in scripted chunk sizes (pattern cycled; each read gives
 /// `min(max(want,1), buf.remaining(), available)` bytes, 0 at the end).
 pub struct Scripted {
